@@ -227,7 +227,8 @@ def run_kriging(ctx, exe, ncase, found):
     def emit(p, msgs, rep):
         algo = 'kriging-' + p['neigh']
         for sk, m_ in msgs:
-            key = ('createReduce:' + classify(p, 'value')) if sk == 'createReduce' else (algo + ':' + classify(p, sk))
+            if sk == 'createReduce': key = 'createReduce:' + ('selection-NA' if any(x['kind'] == 'selection-NA' for x in p['masks']) else classify(p, 'value'))
+            else: key = algo + ':' + classify(p, sk)
             ctx.violation(key, m_, rep); found[0] = True
     for p in plan:
         algo = 'kriging-' + p['neigh']
@@ -236,7 +237,7 @@ def run_kriging(ctx, exe, ncase, found):
         sxfull = sx_str(B.cases[p['t'][0]]); sxred = sx_str(B.cases[p['t'][1]]) if p['t'][1] is not None else None
         rep = {'with_masks': sxfull, 'reduced': sxred, 'masks': p['masks'], 'kept_data': p['K'], 'kept_targets': p['KT']}
         if rf == 'crash' or rr == 'crash' or rc == 'crash':
-            ctx.violation(algo + ':crash:' + p['kind'], 'harness crashed', rep); found[0] = True; continue
+            ctx.violation(algo + ':' + classify(p, 'value'), 'the calculation crashes (the harness process died on one of the two runs)', rep); found[0] = True; continue
         ctx.count(sxfull[:3000], bool(p['K']) and len(p['K']) < p['full'].n or len(p['KT']) < p['fout'].n)
         nold = len(p['fout'].cols)
         msgs = []
@@ -287,10 +288,11 @@ def run_kriging(ctx, exe, ncase, found):
             emit(p, msgs, rep)
     return B, plan
 
+KIND_ALIAS = {'undefined-first-coordinate': 'undefined-coordinate', 'undefined-other-coordinate': 'undefined-coordinate'}
 def classify(p, subkey):
     """key suffix: the kind(s) of masking responsible.  Values at active targets can only depend on the masks put on the data,
     what is written at masked targets only on the masks put on the targets."""
-    data = sorted(set(m['kind'] for m in p['masks'] if m.get('on') != 'dbout'))
+    data = sorted(set(KIND_ALIAS.get(m['kind'], m['kind']) for m in p['masks'] if m.get('on') != 'dbout'))
     targ = sorted(set(m['kind'] + '@target' for m in p['masks'] if m.get('on') == 'dbout'))
     if subkey in ('masked-target-written', 'pre-existing-variable-modified'): return '+'.join(targ or data or [p['kind']]) + ':' + subkey
     k = '+'.join(p.get('culprit') or data or targ or [p['kind']])
@@ -317,7 +319,7 @@ def run_xvalid(ctx, exe, ncase, found):
         algo = 'xvalid-' + p['neigh']; ctx.dist(algo + ':' + p['kind'])
         rf, rr = B.get(p['t'][0]), B.get(p['t'][1])
         rep = {'with_masks': sx_str(B.cases[p['t'][0]]), 'reduced': sx_str(B.cases[p['t'][1]]), 'masks': p['masks'], 'kept': p['K']}
-        if rf == 'crash' or rr == 'crash': ctx.violation(algo + ':crash:' + p['kind'], 'harness crashed', rep); found[0] = True; continue
+        if rf == 'crash' or rr == 'crash': ctx.violation(algo + ':' + classify(p, 'value'), 'the calculation crashes (the harness process died on one of the two runs)', rep); found[0] = True; continue
         ctx.count(rep['with_masks'][:3000], len(p['K']) < p['full'].n)
         nold = len(p['full'].cols); msgs = []
         if rf[0] != rr[0]: msgs.append(('status', 'xvalid() returns %d with the masked samples present and %d on the reduced Db' % (rf[0], rr[0])))
@@ -371,7 +373,7 @@ def run_vario(ctx, exe, ncase, found):
         algo = 'vario'; ctx.dist(algo + ':' + p['kind'])
         rf = B.get(p['t'][0]); rr = B.get(p['t'][1]) if p['t'][1] is not None else None; rc = B.get(p['t'][2]) if p['t'][2] is not None else None
         rep = {'with_masks': sx_str(B.cases[p['t'][0]]), 'reduced': sx_str(B.cases[p['t'][1]]) if p['t'][1] is not None else None, 'masks': p['masks'], 'kept': p['K'], 'relation': p['rel']}
-        if 'crash' in (rf, rr, rc): ctx.violation(algo + ':crash:' + p['kind'], 'harness crashed', rep); found[0] = True; continue
+        if 'crash' in (rf, rr, rc): ctx.violation(algo + ':' + classify(p, 'value'), 'the calculation crashes (the harness process died on one of the two runs)', rep); found[0] = True; continue
         if rr is None:
             # no usable sample: the calculation must fail or count no pair at all
             ctx.count(rep['with_masks'][:3000], True)
@@ -468,7 +470,7 @@ def run_stats(ctx, exe, runner, ncase, found):
         ctx.dist('stats:' + p['kind'])
         rf = B.get(p['t'][0]); rr = B.get(p['t'][1]) if p['t'][1] is not None else None; rc = B.get(p['t'][2]) if p['t'][2] is not None else None
         rep = {'with_masks': sx_str(B.cases[p['t'][0]]), 'reduced': sx_str(B.cases[p['t'][1]]) if p['t'][1] is not None else None, 'masks': p['masks'], 'kept': p['K']}
-        if 'crash' in (rf, rr, rc): ctx.violation('stats:crash:' + p['kind'], 'harness crashed', rep); found[0] = True; continue
+        if 'crash' in (rf, rr, rc): ctx.violation('stats:' + classify(p, 'value'), 'the calculation crashes (the harness process died on one of the runs)', rep); found[0] = True; continue
         ctx.count(rep['with_masks'][:3000], len(p['K']) < p['full'].n)
         sc = p['scale']
         def cmp_tables(a, b, what):
@@ -567,7 +569,7 @@ def run_matrices(ctx, exe, ncase, found):
         ctx.dist('covmat:' + p['kind'])
         r = [B.get(t) if t is not None else None for t in p['t']]
         rep = {'with_masks': sx_str(B.cases[p['t'][0]]), 'reduced': sx_str(B.cases[p['t'][1]]) if p['t'][1] is not None else None, 'masks': p['masks'], 'kept': p['K'], 'kept_db2': p['K2']}
-        if 'crash' in r: ctx.violation('covmat:crash:' + p['kind'], 'harness crashed', rep); found[0] = True; continue
+        if 'crash' in r: ctx.violation('covmat:' + classify(p, 'value'), 'the calculation crashes (the harness process died on one of the runs)', rep); found[0] = True; continue
         ctx.count(rep['with_masks'][:3000], len(p['K']) < p['full'].n)
         rf, rr, df, dr = r
         if rr is None:
@@ -757,7 +759,7 @@ def run_simtub(ctx, exe, ncase, found):
         algo = 'simtub'; ctx.dist(algo + '-' + p['neigh'] + ':' + p['kind']); B_ = p['B']
         rf, rr = B_.get(p['t'][0]), B_.get(p['t'][1])
         rep = {'with_masks': sx_str(B_.cases[p['t'][0]]), 'reduced': sx_str(B_.cases[p['t'][1]]), 'masks': p['masks'], 'kept_data': p['K'], 'kept_targets': p['KT'], 'neigh': p['neigh']}
-        if rf == 'crash' or rr == 'crash': ctx.violation(algo + ':' + classify(p, 'value') + ':crash', 'simtub() crashes (%s)' % ('with the masked / undefined samples present' if rf == 'crash' else 'on the reduced Db'), rep); found[0] = True; continue
+        if rf == 'crash' or rr == 'crash': ctx.violation(algo + ':' + classify(p, 'value'), 'simtub() crashes (%s)' % ('with the masked / undefined samples present' if rf == 'crash' else 'on the reduced Db'), rep); found[0] = True; continue
         ctx.count(rep['with_masks'][:3000], len(p['K']) < p['full'].n or len(p['KT']) < p['fout'].n)
         nold = len(p['fout'].cols); msgs = []
         if rf[0] != rr[0]: msgs.append(('status', 'simtub() returns %d with the masked samples present and %d on the reduced Db' % (rf[0], rr[0])))
@@ -767,7 +769,7 @@ def run_simtub(ctx, exe, ncase, found):
             for j, c in enumerate(new):
                 for i in range(n):
                     if not act[i] and c[2][i] is not None: msgs.append(('masked-target-written', 'masked target %d received %s in simulation %d' % (i, fl(c[2][i]), j))); break
-        for sk, m_ in msgs: ctx.violation(algo + ':' + classify(p, sk), m_, rep); found[0] = True
+        for sk, m_ in msgs: ctx.violation(algo + ':' + classify(p, 'value' if sk == 'status' else sk), m_, rep); found[0] = True
 
 # ----------------------------------------------------------------------------- corpus
 def run_corpus(ctx, exe, found):
